@@ -301,7 +301,7 @@ impl World {
     pub fn step(&mut self, ch: &mut dyn Chooser) -> Result<(), Violation> {
         self.steps += 1;
         let n = self.handles.len();
-        let op = if n == 0 { 0 } else { ch.draw(23, "own.op") };
+        let op = if n == 0 { 0 } else { ch.draw(24, "own.op") };
         let pick = |ch: &mut dyn Chooser| ch.draw(n as u64, "own.h") as usize;
         let name: String;
         match op {
@@ -899,6 +899,46 @@ impl World {
                     }
                 }
                 name = "binary_mut".into();
+            }
+            22 => {
+                // shrink_to_fit: may reallocate a uniquely owned native region down to the view (or free it when the
+                // view is empty); what is visible must not change and the pool must be charged the new capacity
+                let i = pick(ch);
+                let uniq = self.unique(self.handles[i].region);
+                let h = &mut self.handles[i];
+                match &mut h.kind {
+                    Kind::Buf(b) => {
+                        let before = b.capacity();
+                        b.shrink_to_fit();
+                        if b.capacity() != before {
+                            ch.probe("own.shrunk");
+                            if !uniq {
+                                return Err(v("in_place_on_shared", "buffer/shrink_to_fit", "shrink_to_fit reallocated a region that other handles refer to".into()));
+                            }
+                            if h.len == 0 {
+                                ch.probe("own.shrunk_to_empty");
+                                // the region was freed: the view no longer has an offset into it
+                                h.off = 0;
+                            }
+                        }
+                    }
+                    Kind::Arr(a) => {
+                        let before = a.values().inner().capacity();
+                        a.shrink_to_fit();
+                        if a.values().inner().capacity() != before {
+                            ch.probe("own.shrunk");
+                            if !uniq {
+                                return Err(v("in_place_on_shared", "array/shrink_to_fit", "shrink_to_fit reallocated a region that other handles refer to".into()));
+                            }
+                            if h.len == 0 {
+                                ch.probe("own.shrunk_to_empty");
+                                h.off = 0;
+                            }
+                        }
+                    }
+                    _ => {}
+                }
+                name = "shrink_to_fit".into();
             }
             _ => {
                 let i = pick(ch);
